@@ -104,6 +104,40 @@ def ts_expected(cfg, xs):
     return wins
 
 
+def ts_windows_pos(cfg, xs):
+    """sessions as (start index, end index, index of the item whose chunk closes the session or None)"""
+    tm = fn1(cfg['time'])
+    closing = fn1(cfg['closing']) if cfg.get('closing') is not None else None
+    a, b = cfg.get('active'), cfg.get('inactive')
+    incl = cfg.get('include', True)
+    wins = []          # [start, end, close_at]
+    ref = last = None
+    for i, x in enumerate(xs):
+        v = dec(x)
+        t = tm(v)
+        if ref is None:
+            wins.append([i, i, None])
+            ref = last = t
+        expired = (a is not None and t >= ref + a) or (b is not None and t >= last + b)
+        if expired:
+            wins[-1][2] = i
+            wins.append([i, i + 1, None])
+            ref = last = t
+        elif closing is not None and closing(v) is True:
+            if incl:
+                wins[-1][1] = i + 1
+                wins[-1][2] = i
+                wins.append([i + 1, i + 1, None])
+            else:
+                wins[-1][2] = i
+                wins.append([i, i + 1, None])
+            ref = last = t
+        else:
+            wins[-1][1] = i + 1
+            last = t
+    return wins
+
+
 def check_sites(term, items, bounds, names, check_close_order=True):
     """returns None or a description of the first violation found on the real boundary traces"""
     for st, inp, inner in splitter_sites(term, names):
